@@ -7,6 +7,7 @@
 package verifsim
 
 import (
+	"context"
 	"net"
 	"sync"
 	"sync/atomic"
@@ -152,4 +153,17 @@ func DialTimeout(network, addr string, timeout time.Duration) (net.Conn, error) 
 	}
 
 	return net.DialTimeout(network, addr, timeout)
+}
+
+
+// DialContext is a dialer for libraries that take one (gRPC): under a
+// simulator the connection comes from the simulated network.
+func DialContext(ctx context.Context, addr string) (c net.Conn, err error) {
+	if h := hooks.Load(); h != nil && h.Dial != nil {
+		return h.Dial("tcp", addr, 0)
+	}
+
+	var d net.Dialer
+
+	return d.DialContext(ctx, "tcp", addr)
 }
